@@ -13,6 +13,18 @@ Definition sx_proposal (p : proposal) : sx :=
 Definition sx_tsel (t : tsel) : sx :=
   SxL [sx_N (ts_type t); sx_N (ts_proto t); sx_N (ts_sport t); sx_N (ts_eport t); sx_bytes (ts_saddr t);
        sx_bytes (ts_eaddr t)].
+(** run-length encoding of the DELETE SPI list (a 4-byte payload can announce 65535 empty SPIs) *)
+Fixpoint rle (l : list bytes) : list (bytes * nat) :=
+  match l with
+  | [] => []
+  | x :: r =>
+      match rle r with
+      | (y, n) :: t => if bytes_eqb x y then (y, S n) :: t else (x, 1%nat) :: (y, n) :: t
+      | [] => [(x, 1%nat)]
+      end
+  end.
+Definition sx_rle (l : list bytes) : sx := sx_list (fun p => SxL [sx_bytes (fst p); sx_nat (snd p)]) (rle l).
+
 Definition sx_body (b : pbody) : list sx :=
   match b with
   | B_SA ps => [sx_list sx_proposal ps]
@@ -21,7 +33,7 @@ Definition sx_body (b : pbody) : list sx :=
   | B_AUTH m d => [sx_N m; sx_bytes d]
   | B_NONCE n => [sx_bytes n]
   | B_NOTIFY p t s d => [sx_N p; sx_N t; sx_bytes s; sx_bytes d]
-  | B_DELETE p spis => [sx_N p; sx_list sx_bytes spis]
+  | B_DELETE p spis => [sx_N p; sx_rle spis]
   | B_VENDOR v => [sx_bytes v]
   | B_TS _ sels => [sx_list sx_tsel sels]
   | B_SK c n => [sx_bytes c; sx_N n]
@@ -81,6 +93,11 @@ Definition tsel_of_sx (x : sx) : option tsel :=
       obind (get_bytes e) (fun e => obind (get_bytes f) (fun f => Some (mkTsel a b c d e f)))))))
   | _ => None
   end.
+Definition unrle_of_sx (x : sx) : option (list bytes) :=
+  match x with
+  | SxL [b; n] => obind (get_bytes b) (fun b => obind (get_N n) (fun n => Some (repeat b (N.to_nat n))))
+  | _ => None
+  end.
 Definition body_of_sx (c : pclass) (xs : list sx) : option pbody :=
   match c, xs with
   | PayloadSA, [SxL ps] => obind (omap proposal_of_sx ps) (fun ps => Some (B_SA ps))
@@ -94,7 +111,7 @@ Definition body_of_sx (c : pclass) (xs : list sx) : option pbody :=
       obind (get_N p) (fun p => obind (get_N t) (fun t => obind (get_bytes s) (fun s => obind (get_bytes d) (fun d =>
       Some (B_NOTIFY p t s d)))))
   | PayloadDELETE, [p; SxL spis] =>
-      obind (get_N p) (fun p => obind (omap get_bytes spis) (fun spis => Some (B_DELETE p spis)))
+      obind (get_N p) (fun p => obind (omap unrle_of_sx spis) (fun spis => Some (B_DELETE p (List.concat spis))))
   | PayloadTSi, [SxL ts] => obind (omap tsel_of_sx ts) (fun ts => Some (B_TS true ts))
   | PayloadTSr, [SxL ts] => obind (omap tsel_of_sx ts) (fun ts => Some (B_TS false ts))
   | PayloadSK, [c; n] => obind (get_bytes c) (fun c => obind (get_N n) (fun n => Some (B_SK c n)))
@@ -149,7 +166,7 @@ Definition run_decode_iters (x : sx) : sx :=
       match crypto_of_sx c, get_bool h, get_bytes d with
       | Some c, Some h, Some d =>
           let r := decode_m toy_dec (toy_mac (icv_of c)) c h d in
-          SxL [sx_res sx_message (fst r); sx_nat (snd r)]
+          SxL [sx_res sx_message (fst r); sx_N (snd r)]
       | _, _, _ => bad_input
       end
   | _ => bad_input
